@@ -88,6 +88,42 @@ def run(ctx):
         ops = [["check", first]] + [[rng.choice(["validate", "validate", "example", "check"]), rng.choice([0, 1])] for _ in range(rng.randint(2, 6))]
         ops = [o + [rng.randrange(len(docs))] if o[0] == "validate" else o for o in ops]
         cases.append({"schemas": schemas, "shared_types": shared, "docs": docs, "enums": ["[1]"], "regexes": ["/a/"], "ops": ops, "cls": "shared-allof-private-parent"})
+    # error values inside unnamed types (or rule-sets, or-shortcuts): every field a caller can read is the same in every run
+    for text, types in (('{\n  "a": @A\n}', [["@A", '1 // {or: [{type: "@X", nullable: true}, "string"]}']]), ('{\n  "k": @B | @C\n}', [["@B", "1"]]),
+                        ('{\n  "a": @B\n}', [["@B", '{\n  "c": @X | @Y\n}']])):
+        cases.append({"schemas": [{"text": text, "types": types}], "shared_types": [], "docs": ["1"], "enums": ["[1]"], "regexes": ["/a/"], "ops": [["check", 0], ["validate", 0, 0], ["check", 0]]})
+    # two schemas with DIFFERENT regex types under the same name: each keeps its own pattern and example
+    for _ in range(30 if quick else 300):
+        pa, pb = rng.sample(["/^a+$/", "/^[0-9]{2}$/", "/^x?y$/", "/b/", "/^$/"], 2)
+        schemas = [{"text": '{\n  "id": @id\n}', "types": [], "regex_types": [["@id", pa]]}, {"text": rng.choice(['{\n  "id": @id\n}', "@id"]), "types": [], "regex_types": [["@id", pb]]}]
+        docs = ['{"id":"aa"}', '{"id":"42"}', '{"id":"y"}', '{"id":"b"}', '{"id":""}', '"aa"', '"42"', '"b"', '""']
+        ops = [[rng.choice(["check", "example", "validate", "validate"]), rng.choice([0, 1])] for _ in range(rng.randint(3, 8))]
+        ops = [o + [rng.randrange(len(docs))] if o[0] == "validate" else o for o in ops]
+        # what each schema must answer is decided by ITS pattern (python re; the patterns are in the common subset)
+        import re as _re
+        oracle = []
+        for o in ops:
+            if o[0] != "validate":
+                oracle.append(None)
+                continue
+            pat = (pa, pb)[o[1]][1:-1]
+            dv = json.loads(docs[o[2]])
+            wrapped = schemas[o[1]]["text"] != "@id"
+            val = dv.get("id") if (wrapped and isinstance(dv, dict)) else (dv if (not wrapped and isinstance(dv, str)) else None)
+            oracle.append("ok" if (val is not None and _re.search(pat.replace("$", "\\Z"), val)) else "err")
+        cases.append({"schemas": schemas, "shared_types": [], "docs": docs, "enums": ["[1]"], "regexes": ["/a/"], "ops": ops, "oracle": oracle})
+    # the caller writes into (and appends to) every example it receives: nothing the library does later may change
+    for _ in range(60 if quick else 600):
+        kind = rng.choice(["lit", "ref", "obj"])
+        if kind == "lit":
+            schemas = [{"text": rng.choice(["12 // {min: 1}", '"abc" // {minLength: 1}', "true", "12"]), "types": []}]
+        elif kind == "ref":
+            schemas = [{"text": "@A", "types": [["@A", rng.choice(['"abc" // {minLength: 1}', "7", '{\n  "k": 1\n}'])]]}]
+        else:
+            schemas = [{"text": '{\n  "k": "v",\n  "n": 12\n}', "types": []}]
+        ops = [[rng.choice(["example", "example", "len", "check", "validate", "ast"]), 0] for _ in range(rng.randint(3, 8))]
+        ops = [o + [0] if o[0] == "validate" else o for o in ops]
+        cases.append({"schemas": schemas, "shared_types": [], "docs": ["12"], "enums": ["[1]"], "regexes": ["/a/"], "ops": ops, "scribble": True})
     import os
     cdir = os.path.join(vc.ROOT, "corpus", "C11")
     if os.path.isdir(cdir):
@@ -108,6 +144,12 @@ def run(ctx):
             h_full, h, f = h, core(h), core(f)
             info = {"pool": {kk: c.get(kk) for kk in ("schemas", "shared_types", "docs", "enums", "regexes")}, "history": c["ops"][:k + 1], "op": op, "in_history": h, "fresh": f, "later": late,
                     "cls": c.get("cls")}
+            exp = (c.get("oracle") or [None] * len(c["ops"]))[k]
+            if exp is not None and (exp == "ok") != (h.split("#")[0] == "ok"):
+                if len(ctx.violations) < 40:
+                    ctx.report("operation %s returns %s, the pattern of that schema's own regex type says %s (another schema of the process has a regex type of the same name)" % (op, h[:60], exp),
+                               "c11o:" + l + str(k), info, case=info)
+                break
             if h != f:
                 if len(ctx.violations) < 40:
                     ctx.report("operation %s after history %s returns %s, on fresh objects %s" % (op, c["ops"][:k], h[:100], f[:100]), "c11h:" + l + str(k), info, case=info)
@@ -142,6 +184,11 @@ def run(ctx):
         {"text": '{"k": 1}', "types": [["@a", '{} // {allOf: "@x"}'], ["@b", '{} // {allOf: "@lit"}'], ["@c", '{} // {allOf: "@z"}'], ["@lit", "true"]]},
         {"text": '{"k": @a | @b | @c}', "types": [["@a", '{ // {allOf: "@x"}\n}'], ["@b", '{ // {allOf: "@y"}\n}'], ["@c", '{ // {allOf: "@z"}\n}']]},
     ]
+    for text, doc in (("[ // {maxItems: 3}\n  @A | @B\n]", "[1, 1, 1]"), ('[@A | @B, "s", 3]', '[1, "x", 5]'), ('{"k": @A | @B, "z": 1}', '{"k": 1, "z": 2}'),
+                      ('{\n  "k": [@A | @B] // {optional: true}\n}', '{"k": [1, 1]}')):
+        rl.append(json.dumps({"schemas": [{"text": text, "types": [["@A", "1"], ["@B", "2 // {min: 0}"]]}], "docs": [doc], "enums": [], "regexes": [], "ops": [], "n": 400}))
+    for ap, doc in (("string", '{"x": "1.5"}'), ("float", '{"x": "12.30"}'), ("string", '{"ip": "192.168.0.1"}'), ("integer", '{"x": "1.0"}'), ("email", '{"m": "a@b.cc"}')):
+        rl.append(json.dumps({"schemas": [{"text": '{} // {additionalProperties: "%s"}' % ap, "types": []}], "docs": [doc], "enums": [], "regexes": [], "ops": [], "n": 300}))
     for nc in nested_cases:
         rl.append(json.dumps({"schemas": [nc], "docs": ['{"a":{"p":"s"},"b":{"q":1}}', '{"a":{"p":{"z":1}}}'], "enums": [], "regexes": [], "ops": [], "n": 500}))
     if os.path.isdir(cdir):
